@@ -279,6 +279,7 @@ func MockCheck(prop, tier string) error {
 	var buildInfo []map[string]any
 	flagSets := map[string]bool{}
 	var workerWall float64
+	seenClass := map[string]bool{}
 	for k := 0; k < mt.Seeds; k++ {
 		sd := seed + uint64(k)
 		seedsUsed = append(seedsUsed, sd)
@@ -329,6 +330,11 @@ func MockCheck(prop, tier string) error {
 				sigs[binary.LittleEndian.Uint64(sd8[j:])] = struct{}{}
 			}
 			for _, vf := range wr.Violations {
+				if cl := classOfReplay(vf); seenClass[cl] {
+					continue // one replay per violation class is reported
+				} else {
+					seenClass[cl] = true
+				}
 				line, isKnown, err := confirmMockViolation(b, vf, prop, sd, spec, tree, known, len(violations)+len(knownHits))
 				if err != nil {
 					nonReplay = append(nonReplay, err.Error())
@@ -490,6 +496,15 @@ func confirmMockViolation(b *mockBuild, file, prop string, seed uint64, spec cor
 		}
 	}
 	return fmt.Sprintf("VIOLATION property=%s replay=%s class=%s cell=%s :: %s", prop, dst, rp.Class, rp.CellID, detail), false, nil
+}
+
+func classOfReplay(file string) string {
+	data, _ := os.ReadFile(file)
+	var h struct {
+		Class string `json:"class"`
+	}
+	json.Unmarshal(data, &h)
+	return h.Class
 }
 
 // MockReplay rebuilds the cell named in a replay file from the current
